@@ -354,7 +354,12 @@ class Report:
         for sig, v in known_hits:
             k = open_known[sig]
             lines.append('KNOWN-FINDING: property=%s %s [%s; %d case(s) this run]' % (self.prop, k.get('what', sig), sig, v['count']))
+        shown = 0
         for sig, v in new:
+            shown += 1
+            if shown > 25:
+                lines.append('  ... and %d more violation classes (see evidence coverage.violation_classes)' % (len(new) - 25))
+                break
             os.makedirs(rdir, exist_ok=True)
             w = v['witnesses'][0] if v['witnesses'] else {}
             path = os.path.join(rdir, '%s.json' % sha([sig, w.get('case')]))
@@ -433,3 +438,62 @@ def run_engine(prop, tier, extra_args=()):
 
 def shquote(s):
     return "'" + s.replace("'", "'\\''") + "'"
+
+
+# ---------------------------------------------------------------------------------------------
+# batched execution of independent `-c` lines: K commands joined with ';' in one cicada process,
+# falling back to one process per case when the batch does not produce exactly the expected records
+
+def _argv_records(run, name='vh-argv'):
+    return [r['argv'] for r in run.records if r.get('k') == 'argv' and r.get('name') == name]
+
+
+def _exec_batch(job):
+    """job = (cases, setup); case = {'line': str, 'expect': [argv,...]}.
+    Returns one result per case: {'ok': bool, 'observed': [...], 'status': int, 'files': [...], 'info': str}."""
+    cases, setup = job
+    d = fresh_case_dir()
+    try:
+        if setup:
+            setup(d)
+        before = set(os.listdir(d))
+        env = {'VH_READ_STDIN': '1'} if False else None
+
+        def one(case):
+            dd = fresh_case_dir()
+            try:
+                if setup:
+                    setup(dd)
+                b4 = set(os.listdir(dd))
+                r = run_cicada(['-c', case['line']], dd, env=env, timeout=15)
+                obs = _argv_records(r)
+                new = sorted(set(os.listdir(dd)) - b4 - {'vh.log', 'home'})
+                ok = (not r.timed_out) and obs == case['expect'] and not new
+                return {'ok': ok, 'observed': obs, 'status': r.status, 'files': new, 'timed_out': r.timed_out,
+                        'info': r.err[-300:].decode('utf-8', 'replace')}
+            finally:
+                drop_case_dir(dd)
+
+        if len(cases) > 1:
+            line = ' ; '.join(c['line'] for c in cases)
+            r = run_cicada(['-c', line], d, env=env, timeout=15 + len(cases))
+            obs = _argv_records(r)
+            exp = [a for c in cases for a in c['expect']]
+            new = sorted(set(os.listdir(d)) - before - {'vh.log', 'home'})
+            if not r.timed_out and obs == exp and not new:
+                out = []
+                for c in cases:
+                    out.append({'ok': True, 'observed': c['expect'], 'status': 0, 'files': [], 'timed_out': False, 'info': ''})
+                return out
+        return [one(c) for c in cases]
+    finally:
+        drop_case_dir(d)
+
+
+def exec_lines(cases, setup=None, batch=25):
+    """Run every case's line through the real binary (`-c`); returns results in order."""
+    jobs = [(cases[i:i + batch], setup) for i in range(0, len(cases), batch)]
+    out = []
+    for res in pmap(_exec_batch, jobs, chunk=1):
+        out.extend(res)
+    return out
